@@ -30,7 +30,7 @@ MESHES = [("uni", 1, 1.0, 0.0), ("uni", 2, 3.0, -4.0), ("uni", 5, 1.0, 0.3), ("r
           ("w", (2.0, 0.5, 1.0)), ("w", (1.0, 0.5, 0.5, 2.0)), ("w", (0.5, 0.5, 2.0, 1.0, 2.0)), ("w", (2.0, 2.0, 0.5)), ("uni", 3, 1e-3, 0.0), ("uni", 4, 1e3, 10.0)]
 
 
-def euler_bcsets(rho, u, p):
+def euler_bcsets(rho, u, p, G=1.4):
     """boundary pairs compatible with the uniform state (rho,u,p)"""
     c = np.sqrt(G * p / rho)
     M = u / c
@@ -74,9 +74,10 @@ def check_op_1d(mname, spec, flux, rname, mspec, bcs, state, cond, res=None):
     kind = spec[0]
     if kind in ("euler1d", "nozzle"):
         rho, u, p = state
-        c = np.sqrt(G * p / rho)
+        gam = spec[-1]
+        c = np.sqrt(gam * p / rho)
         s = abs(u) + c
-        S = [rho * s, rho * s * s, rho * s * (c * c / (G - 1) + 0.5 * u * u)]
+        S = [rho * s, rho * s * s, rho * s * (c * c / (gam - 1) + 0.5 * u * u)]
     elif kind == "shallowwater":
         h, u = state
         s = abs(u) + np.sqrt(spec[1] * h)
@@ -99,11 +100,11 @@ def check_op_1d(mname, spec, flux, rname, mspec, bcs, state, cond, res=None):
     return out
 
 
-def states_1d(kind, g=9.81):
+def states_1d(kind, g=9.81, gam=1.4):
     if kind == "euler":
         out = []
         for r, m, p in itertools.product((1.0, 0.3, 1e3), (0.0, 0.3, -0.3, 0.9, -0.9, 1.5, -1.5, 3.0, -3.0), (1.0, 0.3, 1e3)):
-            out.append((r, m * np.sqrt(G * p / r), p))
+            out.append((r, m * np.sqrt(gam * p / r), p))
         return out
     if kind == "sw":
         return [(h, f * np.sqrt(g * h)) for h in (1.0, 1e-3, 1e3, 0.3) for f in (0.0, 0.5, -0.5, 1.0, -1.0, 3.0, -3.0)]
@@ -113,10 +114,11 @@ def states_1d(kind, g=9.81):
 def shard_op1d(arg):
     mname, flux, rname, tier = arg
     res = core.Res()
-    if mname in ("euler1d",):
-        spec = ("euler1d", G)
-        for st in states_1d("euler"):
-            for bcs, cond in euler_bcsets(*st):
+    if mname.startswith("euler1d"):
+        gam = float(mname.split("@")[1]) if "@" in mname else G
+        spec = ("euler1d", gam)
+        for st in states_1d("euler", gam=gam):
+            for bcs, cond in euler_bcsets(*st, G=gam):
                 for mspec in MESHES:
                     res.nontrivial += 1 if (st[1] != 0 or bcs[0] != "per") else 0
                     for s, w in check_op_1d(mname, spec, flux, rname, mspec, bcs, st, cond, res):
@@ -385,6 +387,11 @@ def run(ctx):
     th = ctx.thorough
     recs = space.X1_ALL if th else space.X1_SHORT
     cfg = []
+    gammas = [5.0 / 3.0] + ([1.1, 2.0] if th else [])      # secondary parameter: the same space for other specific-heat ratios (first-order + 2 schemes)
+    for gam in gammas:
+        for flux in space.fluxes(space.euler.euler1d()):
+            for r in ("extrapol1", "extrapol3", "muscl:vanalbada"):
+                cfg.append(("euler1d@%r" % gam, flux, r, ctx.tier))
     for mname, spec in (("euler1d", ("euler1d", G)), ("nozzle-const", None), ("nozzle-parab", None), ("nozzle-bump", None), ("nozzle-lin", None), ("nozzle-bump_m", None),
                         ("shallowwater", ("shallowwater", 9.81)), ("convection", ("convection", 1.0)), ("burgers", ("burgers",))):
         model = space.make_model(spec if spec else ("nozzle", mname.split("-")[1], G))
